@@ -70,6 +70,7 @@ type dayAcc struct {
 }
 
 var prevDayEndC1 = math.NaN()
+var prevDayEndCnt [3]float64
 var prevDayEndZeit = -1
 var prevDayEndStorage = math.NaN()
 var prevDayEndGRW = math.NaN()
@@ -188,6 +189,15 @@ func traceLine(work, line string, lineNo int, r *rng, waterEvery int) {
 			for _, m := range g.MESS {
 				if m == zeit && m != 0 {
 					meas = true
+				}
+			}
+			// C02 over a run: the three counters of the balance are carried over the day boundary unchanged (or reset to
+			// zero by the annual reset) - the carried state of DayNitroRun.nrun
+			if prevDayEndZeit == zeit-1 {
+				for ci, pair := range [][2]float64{{g.OUTSUM, prevDayEndCnt[0]}, {g.DRAINLOSS, prevDayEndCnt[1]}, {g.CUMDENIT, prevDayEndCnt[2]}} {
+					if pair[0] != pair[1] && pair[0] != 0 {
+						oracleFail("n-counter-not-carried line=%d zeit=%d counter=%s value=%v end-of-yesterday=%v", lineNo, zeit, []string{"OUTSUM", "DRAINLOSS", "CUMDENIT"}[ci], pair[0], pair[1])
+					}
 				}
 			}
 			if prevDayEndZeit == zeit-1 && !meas {
@@ -342,6 +352,7 @@ func traceLine(work, line string, lineNo int, r *rng, waterEvery int) {
 					oracleFail("dissolved-exceeds-applied line=%d zeit=%d ums=%v dsumm=%v", lineNo, zeit, g.UMS, g.DSUMM)
 				}
 				prevDayEndC1, prevDayEndZeit = c1, zeit
+				prevDayEndCnt = [3]float64{g.OUTSUM, g.DRAINLOSS, g.CUMDENIT}
 				prevDayEndStorage, prevDayEndGRW = storage(g, 1), g.GRW
 			}
 			s1 := storage(g, 1)
